@@ -274,7 +274,7 @@ func (f *g2lFn) callExt(c *ast.CallExpr) (string, bool) {
 	if !strings.Contains(tmpl, ":lit}") && !(recvPtr && f.g.strOn()) {
 		return "", false // the plain path (and go2lean_ptr.go for receivers of other configurations) takes it
 	}
-	if c.Ellipsis.IsValid() || sig.Variadic() {
+	if c.Ellipsis.IsValid() || (sig.Variadic() && !f.g.env().Variadic) { // go2lean_env.go: arguments the template does not mention are dropped
 		f.fail("variadic primitive `%s`", f.src(c))
 	}
 	var argEs []ast.Expr
